@@ -12,10 +12,16 @@ model's exact messages (converged) and raw update (one parallel round, one
 sequential round in the recorded order, HD1BP's two half steps) ; normalised
 runs (L1/L2/Linf, damping, schedules) are compared inside Coq by integer
 cross-multiplication at relative 1e-9 (float division is unavoidable);
-combine_local_contractions is compared exactly on +-10^k inputs.
+combine_local_contractions is compared exactly on +-10^k inputs; the two factors
+D2BP.gauge_insert builds from a boundary message (sqrt factor, its inverse; smudge,
+power) are compared entrywise with coq/C14/GaugeModel.v at 1e-9 on real and complex
+messages (proved: inverse . sqrt = 1 for every unitary W and spectrum, gate_ +
+un-gate_ = identity on every fibre, the gauged patch sees the identity environment).
 Oracle (tests / searcher, tolerance 1e-8 relative + 1e-10 of the absolute
 scale): every flavour on random acyclic geometries against an independent
-numpy einsum reference.
+numpy einsum reference; the temporary BP gauge (gauge_insert raw / inverse,
+gauge_temp, TensorNetwork.gauge_insert(bp), gate_ without truncation + re-run) on
+random real / complex tree states.
 """
 
 import math
@@ -30,7 +36,11 @@ RULE = (
     "random acyclic factor graphs: 1-9 tensors, 1-3 components, bond sizes 1-3, optional hyper-edges (index on "
     ">=3 tensors), dangling indices and rank-0 tensors; data: positive integers (exact streams), positive / signed "
     "/ complex floats (oracle); options: update in {parallel, sequential}, damping in {0, 0.3}, local_convergence, "
-    "normalize in {L1, L2, Linf, identity}, random initial messages. Non-trivial: >= 3 tensors and some bond > 1."
+    "normalize in {L1, L2, Linf, identity}, random initial messages. Temporary BP gauge: random tree / forest states (2-7 "
+    "sites, bonds 1-3, physical 2-3, extra output indices; complex / signed / positive-integer data), random patch "
+    "(connected or not), return_gauges in {raw, inverse}, smudge in {0, 1e-12, 1e-3}, power in {1, 2, 0.5}, entry in "
+    "{D2BP.gauge_insert, TensorNetwork.gauge_insert}, gauge_temp(ungauge_outer), up to two gate_ calls (one- / two-site, either "
+    "site order, non-unitary G) with BP re-run in between. Non-trivial: >= 3 tensors and some bond > 1."
 )
 
 IDENT = lambda x: x  # noqa: E731  normalisation that keeps integer messages exact
@@ -1300,9 +1310,19 @@ def case_gauge(ctx, seed, coq_out=None):
             if not np.allclose(dense_of(full3, outs), psi, rtol=1e-7, atol=1e-7 * amax):
                 ctx.violation("d2bp:gauge_temp:dense_changed" + cplx, "gauge_temp with nothing done inside changed to_dense", desc)
 
+            # (3b) oblique compressor between two neighbouring sites built in the BP gauge (D2BP passed as `gauges`), nothing cut off
+            bonds_ = [(ix, [i for i in range(n) if ix in tens[i]]) for ix in dim if ix not in outs]
+            if bonds_ and rng.random() < 0.5:
+                _, (ia, ib) = bonds_[int(rng.integers(0, len(bonds_)))]
+                tn2 = bp.tn.insert_compressor_between_regions([f"I{ia}"], [f"I{ib}"], max_bond=None, cutoff=0.0, gauges=bp,
+                                                              gauge_smudge=float(rng.choice([0.0, 1e-12])))
+                if not np.allclose(dense_of(tn2, outs), psi, rtol=1e-7, atol=1e-7 * amax):
+                    ctx.violation("tn:insert_compressor_between_regions:d2bp_gauges:dense_changed" + cplx,
+                                  "insert_compressor_between_regions(gauges=converged D2BP, cutoff=0, max_bond=None) changed to_dense",
+                                  {**desc, "sites": [ia, ib]})
+
             # (4) gates in the BP gauge without truncation: the exactly gated state, messages of the gated bond exact,
             #     and BP re-run from the touched sites gives the exact norm; a second gate after the re-run
-            bonds_ = [(ix, [i for i in range(n) if ix in tens[i]]) for ix in dim if ix not in outs]
             cur = psi
             for rep in range(2):
                 if bonds_ and rng.random() < 0.85:
@@ -1634,6 +1654,11 @@ def run(ctx):
         "compute_all_tensor_messages_tree (modelled by its result, the all-but-one contraction); L2 / L2phased / Linf "
         "normalisation (any non-zero scalar in the model); 2-norm flavours (D2BP, L2BP), lazy site grouping (L1BP), "
         "HV1BP batching, gauging / compression, DIIS, local_convergence bookkeeping: oracle stream only (tests at 1e-8)",
+        "D2BP.gauge_insert factors: hand model coq/C14/GaugeModel.v (msqrt = ldmul(s, dag(W)), minv = rddiv(W, s), smudged / "
+        "powered spectrum, Tensor.gate_ on one fibre); tie = entrywise comparison inside Coq (exact Gaussian-integer "
+        "arithmetic, 1e-9 of the Frobenius norm: one float rounding per entry) of the factors the implementation returned with "
+        "the model evaluated on numpy.linalg.eigh of the same message (trusted: eigh, sqrt / clip, that eigh is reproducible); "
+        "that the messages are the exact environments, gauge_temp / gate_ / the re-run norm: tests against numpy references",
     ]
     ctx.assumptions += [
         "theorems quantify over rooted trees; a network is mapped to a tree by the harness (checked per case: the model's "
